@@ -16,7 +16,7 @@ EXPLANATION = ('engine_thread.cc is lowered with clang++ (-O0, mem2reg): the std
                'without effect); after shutdown every worker returns.')
 BOUNDS = {'quick': {'configurations (workers, max tasks per batch, batches)': [(1, 2, 2), (2, 2, 1)]}, 'thorough': {'configurations': [(1, 3, 2), (2, 3, 1)]}}
 OUTSIDE = ('weak-memory reorderings (the relaxed orderings on next_/ntask_ are NOT justified by this check: sequential consistency is assumed), OS thread creation/joining (constructor and destructor bodies), '
-           'mju_dispatch\'s stack bookkeeping (C19), W > 3; two consecutive batches with two or more workers (state space exceeds the budget: > 400 000 states), covered with one worker.')
+           'mju_dispatch\'s stack bookkeeping (C19), three or more workers (state budget exceeded even for one task); two consecutive batches with two or more workers (state space exceeds the budget: > 400 000 states), covered with one worker.')
 ASSUMPTIONS = ['sequential consistency', 'std::atomic<int>::wait(old): if the value equals old the thread sleeps until a notify on that atomic, then re-checks (futex semantics: check and sleep are one atomic step); notify_all wakes every sleeper', 'std::vector<std::thread>::size() = W',
                'the task function is atomic w.r.t. the protocol (it only records (thread id, task id))']
 BUDGET = {'quick': 900, 'thorough': 3000}
